@@ -591,7 +591,11 @@ class GroupBy:
             True if any group key contains null values, False otherwise
         """
         if self.key_is_chunked:
-            return self.group_ikey.null_count > 0
+            # null keys are the code -1, not Arrow nulls
+            return any(
+                len(chunk) > 0 and np.asarray(chunk).min() < 0
+                for chunk in self.group_ikey.chunks
+            )
         else:
             return self.group_ikey.min() < 0
 
